@@ -335,8 +335,9 @@ func (b *batch) cleanup() {
 	}
 }
 
-// stallLimitS: a worker that announces no new program for this long is killed.
-const stallLimitS = 120
+// stallLimitS: a worker that announces no new program for this long (wall time) is killed. One
+// program takes well under a second; 240 s leaves room for a machine that runs other batches too.
+const stallLimitS = 240
 
 // ---- running workers ----
 
